@@ -39,7 +39,8 @@ CHECKS["C19"] = {
              "element carrying the received value, spin sends each source once to its own endpoint and polls every endpoint "
              "that has an active forwarding rule or sink whatever the state of the other table (guard evaluated for every "
              "combination of key-present / list-non-empty), and only the registration methods write the rule tables."
-             " R19.7: an endpoint's getData returns None or a value produced by this very receive on every path; a stored field that is not written on the path (the previous message) is never returned."),
+             " R19.7: an endpoint's getData returns None or a value produced by this very receive on every path; a stored field that is not written on the path (the previous message) is never returned."
+             " R19.8: a field of the hub that spin both tests and writes (a latch) has its initial value again on every exit of spin on which it was written."),
     "note": ("Trusted: endpoints honour the CommsObject interface; real socket behaviour (shutdown on an unconnected UDP "
              "socket etc.) is not modelled."),
 }
@@ -86,7 +87,8 @@ CHECKS["C15"] = {
              "boundary contact then follows from the separating-axis theorem; this is as strong as a static argument gets "
              "here. Floating-point rounding within 1e-9 of contact is not decided. R15.4: each planner owns its obstruction list (fresh list on every constructor path, no mutable default argument or class attribute, only addObstruction writes it), so the boxes tested are the ones registered on that planner."
              " R15.3: addObstruction stores, for each axis, both corner ends (in either order, or as min/max) and appends exactly one box on every path; no registered box is dropped."
-             " R15.5: the corners read by the test are the corners registered: the six-vector constructor form of tm stores entries 0..2 of its argument in rows 0..2 (element-flow evaluation, both rpy flags) and nothing it calls rewrites those rows in place; indexing reads the six-vector."),
+             " R15.5: the corners read by the test are the corners registered: the six-vector constructor form of tm stores entries 0..2 of its argument in rows 0..2 (element-flow evaluation, both rpy flags) and nothing it calls rewrites those rows in place; indexing reads the six-vector."
+             " R15.5 also: the copy form of the tm constructor gives the copy arrays of its own (node poses built from one template do not share a position buffer)."),
     "note": "Trusted: separating-axis theorem for a segment and an axis-aligned box; NumPy element-wise arithmetic.",
 }
 
@@ -151,7 +153,8 @@ CHECKS["C05"] = {
              "pose object is mutated through an alias; NumPy attributes used exist (an Arm can be built). Equality with the "
              "product of exponentials to 1e-7 is not decided here (kernel: C02). Also: R05.7 the backup used by restoreOriginalEE is refreshed whenever the home tool pose is rewritten for a new base; R05.8 closure obligations on the port primitives FK reaches; the clamp of thetaProtector is decided structurally (each out-of-range side replaced by the bound it violates, guard admits every clamp)."
              " R05.11: pose fields that can come to share one object (the home tool pose and its backup, handed over by plain assignment in restoreOriginalEE) are never mutated in place, only rebound; an in-place writer on either makes a later restore return the changed pose."
-             " R05.12: no kernel or helper that an Arm method hands a view of its stored joint vector to (angleMod hands its argument back, reshape is a view) writes into that argument (effects summary of the callee)."),
+             " R05.12: no kernel or helper that an Arm method hands a view of its stored joint vector to (angleMod hands its argument back, reshape is a view) writes into that argument (effects summary of the callee)."
+             " R05.12 also covers stores the method itself makes into such a view."),
     "note": "Trusted: FKinSpace (C02); parameters documented as transforms are transforms; num_dof >= 1.",
 }
 
@@ -181,7 +184,8 @@ CHECKS["C07"] = {
              "and error recomputation; IK/constrainedIK can return success only after FK(returned joints) wrote the state and "
              "leave the state coherent on every exit; the limit-respecting kernel minus its clamp equals IKinSpace (which equals "
              "the reference). Local convergence and 'unreachable => error above tolerance' are numerical and not decided. Also: R07.6 (effects summary) no IK kernel writes the storage of the start vector it is given, so a failed solve cannot move the arm's stored joints; R07.7 closure obligations on the primitives the solvers reach."
-             " R07.8: on the success path of IKFree the pose compared with the goal is FK of the joint vector that is returned (not the solver's residual of a clamped evaluation). R07.9: the limit-respecting kernel clamps the start vector before its first error evaluation (or every caller hands it a vector drawn inside the limits), so a solve that stops at iteration 0 cannot return joints outside the limits."),
+             " R07.8: on the success path of IKFree the pose compared with the goal is FK of the joint vector that is returned (not the solver's residual of a clamped evaluation). R07.9: the limit-respecting kernel clamps the start vector before its first error evaluation (or every caller hands it a vector drawn inside the limits), so a solve that stops at iteration 0 cannot return joints outside the limits."
+             " R07.10: Arm.FK, through which every solver exit writes the state, stores the joint vector it evaluated (the clamped one when it clamps) together with the pose of that vector."),
     "note": "Trusted: FKinSpace/JacobianSpace/MatrixLog6/Adjoint (C01/C02); documented parameter roles.",
 }
 
@@ -241,7 +245,8 @@ CHECKS["C04"] = {
              "operator; inv() is TransInv; the quaternion getter/setter use one convention on one block and re-sync; "
              "LocalToGlobal/GlobalToLocal are literally ref*rel and inv(ref)*rel in rotation-vector form and the wrappers pass "
              "(reference, rel) in order. Associativity, inverse laws and cross-form equality to 5e-6 are numerical and not decided. Also (R04.5): every compiled primitive reachable from the constructor sync, inv and the frame-conversion helpers has the normal form of the pinned reference (closure obligations), so a defect in exp/log breaks this property's check too."
-             " R04.1 also: nothing a constructor form calls on self rewrites the translation rows of the six-vector in place (in-place stores of mutators such as angleMod are bounded to rows 3..5)."),
+             " R04.1 also: nothing a constructor form calls on self rewrites the translation rows of the six-vector in place (in-place stores of mutators such as angleMod are bounded to rows 3..5)."
+             " R04.6: the constructor forms give the new transform arrays of its own (TM / TAA are never views of the argument, by the NumPy view / copy table; the reference-keeping setters are not handed an argument)."),
     "note": "Trusted: exp/log/TransInv (C01/C02); scipy Rotation default quaternion convention.",
 }
 
@@ -256,7 +261,8 @@ CHECKS["C20"] = {
              "objects sit inside the catch-all fallback; round() is only reached for finite |x| >= 9999. Exception freedom for "
              "arbitrary Python objects (dynamic __str__/__format__) is NOT decided. The formatted value must be the array element itself on every path (alias-aware); locals are identified by role. R20.6: in the renderer for lists of transforms / wrenches every integer conversion of an entry is dominated by abs(x) >= 9999 and not isinf(x), so NaN and infinite entries are rendered instead of raising."
              " R20.1 is path-based: on every path of disp the renderer receives the parameters themselves (matrix, nd, ...) or a view/reshape of them, never a value-modified copy."
-             " R20.7: the payload of a Screw / Wrench is stored as a 6x1 column on every path of Screw.__init__ (reshape to (6,1), a (6,1) zero column, or the argument itself only under the fact shape == (6,1)): disp indexes wrenches over that grid."),
+             " R20.7: the payload of a Screw / Wrench is stored as a 6x1 column on every path of Screw.__init__ (reshape to (6,1), a (6,1) zero column, or the argument itself only under the fact shape == (6,1)): disp indexes wrenches over that grid."
+             " R20.8: indexing a transform returns the entry of its six-vector unchanged (lists of transforms are rendered cell by cell through tm.__getitem__)."),
     "note": "Trusted: Python string formatting of finite floats; the stated input kinds.",
 }
 
@@ -271,7 +277,8 @@ CHECKS["C13"] = {
              "the running index which then advances by one, while links/fixed joints contribute none and fixed joints are folded "
              "into the running pose; screws are [axis; point x axis] with the axis rotated by the accumulated pose; the arm is "
              "built at the identity base with the last accumulated pose as tool home. FK equality with the file's semantics to "
-             "1e-6 is numerical and not decided. The pose bookkeeping of the chain walk is decided by a symbolic pose walk (products of origins on every path of one iteration, with an inferred loop invariant); locals are identified by role, not by name."),
+             "1e-6 is numerical and not decided. The pose bookkeeping of the chain walk is decided by a symbolic pose walk (products of origins on every path of one iteration, with an inferred loop invariant); locals are identified by role, not by name."
+             " R13.5: Arm.FK evaluates the loaded chain at the joint vector it is given or at its clamp to the limits only (no folding of in-limit joint values before the product of exponentials)."),
     "note": "Trusted: ElementTree parsing; tm composition (C04); the chain is strictly serial (as the property states).",
 }
 
@@ -286,7 +293,8 @@ CHECKS["C09"] = {
              "replaced (re-spun platforms solve FK for their own geometry); FK/IK/move/spinCustom end with derived state computed "
              "from exactly the stored poses, so lengths reported after FK are recomputed geometry. Convergence of the solvers to "
              "1e-3 is numerical and not decided. R09.2 discovers class-wide every instance field that caches a function of the plate-fixed joint tables (by data dependence) and requires every writer of the tables to refresh or reset each of them on every path; kernel formulas are decided by normal-form equality with a reference implementation written from the definition. R09.5: in the Newton FK kernel the height floor applied to the iterate is at most leg_ext_min/2 (a higher floor excludes poses of flat platforms), the residual driven to zero is squared joint distance minus squared requested length, and the top joints are rotated by the current guess."
-             " R09.6: the leg lengths _IKHelper hands back are a snapshot (copy) of self.lengths, so the corrective action on the stored lengths cannot rewrite the vector already returned to the caller."),
+             " R09.6: the leg lengths _IKHelper hands back are a snapshot (copy) of self.lengths, so the corrective action on the stored lengths cannot rewrite the vector already returned to the caller."
+             " R09.7: no array object is bound both to a plate-fixed joint table and to a space-joint buffer that the IK kernel writes in place."),
     "note": "Trusted: convergence of SPFKinSpaceR's Newton iteration and its Jacobian (not analysed numerically); the bound leg_ext_min/2 on the height floor is taken from the kernel as exercised; tokens name one pose value per path.",
 }
 
@@ -300,7 +308,8 @@ CHECKS["C10"] = {
              "listed writers touch derived state; each validator consults its own switch and constraint, never upgrades a False, "
              "corrects only when allowed and re-validates deep enough; pure queries end with the poses they started with; no helper "
              "can re-enter itself with unchanged constant arguments (every call returns). That the constraint predicates compute "
-             "the right geometry is not decided. R10.7: the validity FK / IK return was evaluated for the state they leave: after the validate() whose verdict is returned the platform is moved only by a validating call or by one rigid motion of both plates through the current relative transform."),
+             "the right geometry is not decided. R10.7: the validity FK / IK return was evaluated for the state they leave: after the validate() whose verdict is returned the platform is moved only by a validating call or by one rigid motion of both plates through the current relative transform."
+             " R10.8: _IKHelper runs the IK kernel on every returning path (no solve remembered across calls)."),
     "note": "Trusted: external solvers only call the closure they are given; a token names one pose value along a path.",
 }
 
@@ -315,7 +324,8 @@ CHECKS["C11"] = {
              "applied wrench + top plate weight + six shaft weights, motors and bottom plate only afterwards; Robot derives "
              "jacobian() as pinv(inverseJacobian()). Derivative and equilibrium identities are numerical and not decided."
              " R11.4: the statics table of Robot (staticForces / staticForcesBody / their inverses) is decided in this check too: each entry is the transposed (space / body) Jacobian or its pseudo-inverse applied to the wrench payload, without a frame change of the argument."
-             " R11.5: getActuatorLoc(i, 't'/'b') is getUnitVec(own joint of leg i, other joint of leg i, configured offset) with the offset the configured constant itself (never a function of the current leg length), and getUnitVec is first point + unit(second - first) * distance (reference comparison)."),
+             " R11.5: getActuatorLoc(i, 't'/'b') is getUnitVec(own joint of leg i, other joint of leg i, configured offset) with the offset the configured constant itself (never a function of the current leg length), and getUnitVec is first point + unit(second - first) * distance (reference comparison)."
+             " R11.6: every path of the four statics methods of Robot records the forces it worked with in self._last_tau, whatever optional arguments it was called with (sumActuatorWrenches() and the other force queries default to it)."),
     "note": "Trusted: makeWrench / Wrench layout (C12); Robot statics table (C06).",
 }
 
